@@ -188,3 +188,19 @@ Theorem C07_shared_compiler_interferes :
         m_passes (g_m (run cf (only t sched) (fresh_process kinds comps)) t)).
 Proof. exact shared_compiler_interferes. Qed.
 Print Assumptions C07_shared_compiler_interferes.
+
+(* fresh vs warmed-up threads, set_value on an iterative compiler: whatever the
+   thread's tracker namespace holds (absent, or any todo / computed / iteration
+   number / iterations / tolerance left by earlier operations - the two attributes
+   the setter reads exist, which C07_fresh guarantees for every reachable
+   namespace), the outcome and the compiler's contents are the same, after every
+   schedule *)
+Theorem C07_set_value_warm_equals_fresh : forall cf t sched G G' c v,
+  (forall u, In u sched -> u <> t -> c_ns cf u <> c_ns cf t /\ c_comp cf u <> c_comp cf t) ->
+  g_m G t = start (KSet c v) -> g_m G' t = start (KSet c v) ->
+  g_k G (c_comp cf t) = g_k G' (c_comp cf t) ->
+  ns_ok (g_ns G (c_ns cf t)) -> ns_ok (g_ns G' (c_ns cf t)) ->
+  g_m (run cf sched G) t = g_m (run cf sched G') t /\
+  g_k (run cf sched G) (c_comp cf t) = g_k (run cf sched G') (c_comp cf t).
+Proof. exact set_value_warm_equals_fresh. Qed.
+Print Assumptions C07_set_value_warm_equals_fresh.
